@@ -7,6 +7,7 @@
 package racer
 
 import (
+	"context"
 	"encoding/json"
 	"fmt"
 	"os"
@@ -14,6 +15,9 @@ import (
 	"strconv"
 	"testing"
 	"time"
+
+	"github.com/mattn/anko/env"
+	"github.com/mattn/anko/vm"
 
 	"verifsim/harness"
 	_ "verifsim/props/c13"
@@ -130,4 +134,63 @@ func TestRaceC16(t *testing.T) {
 		n++
 	}
 	report(map[string]any{"workloads": n, "repeats_each": 3, "seconds": d.Seconds(), "gomaxprocs_cycle": procs})
+}
+
+// TestRaceC02 is the real-goroutine leg of C02 for the one shape the simulation cannot reach: several
+// ExecuteContext calls racing on ONE host channel (a check-then-act between them has no yield point
+// inside). Every call is cancelled and must return; the bound is wall-clock and deliberately huge
+// (10 s for scripts that poll on every statement), and it is the property's own observable
+// ("wall-clock time between cancel() and return").
+func TestRaceC02(t *testing.T) {
+	seed, d := budget()
+	end := time.Now().Add(d)
+	defer runtime.GOMAXPROCS(runtime.GOMAXPROCS(0))
+	sendForms := []string{"for { hc <- 1 }", "for i = 0; true; i++ { hc <- i }", "func s() { for { hc <- 1 } }\ns()", "for { func(x) { hc <- x }(1) }"}
+	recvForms := []string{"for { <-hc }", "for { v = <-hc }", "for { v, ok = <-hc }", "for v in hc { }", "func r(a, b, c, d, e) { for { <-hc } }\nr(1, 2, 3, 4, 5)"}
+	rounds := 0
+	r := uint64(seed)*2654435761 + 12345
+	next := func(n int) int { r = r*6364136223846793005 + 1442695040888963407; return int((r >> 33) % uint64(n)) }
+	for time.Now().Before(end) {
+		runtime.GOMAXPROCS([]int{2, 4, 8, 16}[next(4)])
+		capacity := next(4)
+		hc := make(chan int64, capacity)
+		nS, nR := 2+next(6), 1+next(4)
+		ctx, cancel := context.WithCancel(context.Background())
+		type res struct {
+			src string
+			err error
+		}
+		done := make(chan res, nS+nR)
+		start := func(src string) {
+			e := env.NewEnv()
+			e.Define("hc", hc)
+			go func() {
+				_, err := vm.ExecuteContext(ctx, e, &vm.Options{Debug: false}, src)
+				done <- res{src, err}
+			}()
+		}
+		for i := 0; i < nS; i++ {
+			start(sendForms[next(len(sendForms))])
+		}
+		for i := 0; i < nR; i++ {
+			start(recvForms[next(len(recvForms))])
+		}
+		time.Sleep(time.Duration(next(2000)) * time.Microsecond)
+		cancel()
+		deadline := time.After(10 * time.Second)
+		for got := 0; got < nS+nR; got++ {
+			select {
+			case x := <-done:
+				if x.err == nil || x.err.Error() != "execution interrupted" {
+					fmt.Printf("REAL-LEG VIOLATION class=interrupt-swallowed\na cancelled call returned error %v instead of \"execution interrupted\"\n%s\n", x.err, x.src)
+					t.FailNow()
+				}
+			case <-deadline:
+				fmt.Printf("REAL-LEG VIOLATION class=cancel-ignored\n%d of %d cancelled ExecuteContext calls sharing one host channel (cap %d, %d senders, %d receivers) had not returned 10 s after cancel()\n", nS+nR-got, nS+nR, capacity, nS, nR)
+				t.FailNow()
+			}
+		}
+		rounds++
+	}
+	report(map[string]any{"rounds": rounds, "seconds": d.Seconds()})
 }
